@@ -40,6 +40,10 @@ func main() {
 		os.Exit(2)
 	}
 	prop := os.Args[1]
+	if prop == "tqchild" {
+		tqChildMain(os.Args[2])
+		return
+	}
 	fs := flag.NewFlagSet(prop, flag.ExitOnError)
 	tier := fs.String("tier", "quick", "")
 	seed := fs.Uint64("seed", 1, "")
